@@ -212,8 +212,21 @@ pub fn operation(p: &mut Parser<'_>, mut skip: Skip) -> Result<Option<Skip>> {
             match priority.cmp(&prev.1) {
                 Ordering::Less => {
                     p.close_at(&prev.0, OPERATION)?;
-                    *prev = (prev.0.clone(), priority, extra);
-                    continue;
+
+                    // The closed operation becomes the left operand of the
+                    // enclosing level if there is one which binds at least
+                    // as weakly as the current operator, otherwise it starts
+                    // a new level of its own.
+                    let closed = prev.0.clone();
+                    stack.pop();
+
+                    match stack.last() {
+                        Some(next) if next.1 >= priority => continue,
+                        _ => {
+                            stack.push((closed, priority, extra));
+                            break;
+                        }
+                    }
                 }
                 Ordering::Greater => {
                     stack.push((cur, priority, extra));
